@@ -474,6 +474,7 @@ pub fn bufs() -> impl Strategy<Value = Vec<usize>> {
         1 => Just(vec![usize::MAX - 1, 0, 3]),
         1 => (1usize..70000).prop_map(|n| vec![usize::MAX - 2, n]),
         1 => (1usize..70000).prop_map(|n| vec![usize::MAX - 3, n]),
+        1 => prop_oneof![Just(0usize), 1usize..70000].prop_map(|n| vec![usize::MAX - 4, n]),
     ]
 }
 
